@@ -468,6 +468,8 @@ impl Rollback {
     pub(crate) fn rollback(self, encoder: &mut BinEncoder<'_>) {
         let Self { offset, pointers } = self;
         encoder.offset = offset;
+        // drop the bytes of the abandoned item, otherwise they trail the finished message
+        encoder.buffer.truncate(offset);
         encoder.name_pointers.truncate(pointers);
     }
 }
